@@ -258,6 +258,8 @@ class PropertyDescriptor(Symbol):
             self._bind_owner_if_container_type(attr, owner=obj)
             setattr(obj, self.private_attr_name, attr)
         if isinstance(attr, MonitoredContainer):
+            # the container may still be bound to another owner that shares it (a copy of obj)
+            self._bind_owner_if_container_type(attr, owner=obj)
             # copy first: the value may be the container itself (x.f = x.f, x.f += ...),
             # and keep the order and repetitions of a list
             values = make_list(value)
